@@ -4,12 +4,15 @@ import time
 
 import numpy as np
 
-from harness import comp_filter as F
+from harness import comp_filter as F, comp_grid as G
 from vlib import core
 
-PROPS = "Props/C17.v"
+PROPS = ["Props/C17.v", "Props/C17grid.v"]
+TRANSLATORS = ["grid"]
 THEOREMS = ["C17_in_box", "C17_feasible", "C17_nodup", "C17_subset", "C17_output_order",
-            "C17_fresh_refuted", "C17_log_irrelevant", "C17_fresh_refuted_everywhere"]
+            "C17_fresh_refuted", "C17_log_irrelevant", "C17_fresh_refuted_everywhere",
+            # Props/C17grid.v: the model's rounding key IS the source's (gen/Src_grid.v regenerated from constraints_check.py)
+            "C17_rounding_key_is_source", "C17_same_key_iff_source_rows_equal", "C17_same_key_within_half_tol"]
 LEVEL = "proof"
 RULE = ("contraints_check vs Model/Filter.v, output rows compared exactly INCLUDING order. lattice stream: designed "
         "enumeration over {-2..2}^D, D<=2 (D=1: all 156 candidate lists of length<=3 x 26 intervals incl. half-infinite "
@@ -24,6 +27,8 @@ RULE = ("contraints_check vs Model/Filter.v, output rows compared exactly INCLUD
 TRUSTED = [
     "Coq 8.16.1 kernel + vm_compute (case evaluation); no native_compute",
     "hand-written model Model/Filter.v of constraints_check.py, tied by differential comparison (harness/comp_filter.py)",
+    "translate/grid.py regenerates the rounding statements of constraints_check.py (tol = tol_mesh / 2.0; np.round(U / tol) for candidates and log) on every run; "
+    "C17_rounding_key_is_source proves Model/Filter.v's key equal to them; the located statements are executed for real and compared exactly (harness/comp_grid.py)",
     "NumPy semantics of np.unique(axis=0, return_index=True) (lexicographic order, first occurrence), np.round (half to even), "
     "minimum/maximum, boolean masks and broadcasting of a 1-D U against (1,D) bounds: modelled, tied, not verified",
     "float->Q conversion by float.as_integer_ratio; U/(tol_mesh/2) is computed exactly by the model: exact in binary64 for the "
@@ -145,6 +150,8 @@ def component_cases(ctx):
 
 
 def tie(ctx, broken):
+    # the rounding key regenerated from the source (gen/Src_grid.v) against the located statements of contraints_check, run for real
+    G.tie_grid(ctx, broken)
     seen_keys = set()
     T = ctx.coverage.setdefault("timing_s", {})
     t0 = time.time()
